@@ -7,7 +7,8 @@ from ..dataflow import DefUse
 from .. import events as E
 from .. import types as T
 from ..guards import facts
-from ._h_E import Flow, arg, argn, nargs, return_cases, leaf_polarity, is_const
+from ._h_E import Flow, arg, argn, nargs, return_cases, leaf_polarity, is_const, nfacts, \
+    mutation_nodes_deep, own_helper, args_by_params
 
 EXPLANATION = (
   "Decides the dependency discipline incremental recalculation rests on: record-level doc actions "
@@ -47,7 +48,7 @@ def r1_invalidate(run, w):
   for an in RECORD_ACTIONS:
     fn = w.fn("docactions.DocActions." + an)
     cfg = fn.cfg
-    muts = E.mutation_nodes(fn)
+    muts = mutation_nodes_deep(w, fn, exclude=set(w.doc_action_names()))
     inv = fn.nodes_calling(_invalidating)
     bad = None
     for m in sorted(muts):
@@ -109,7 +110,7 @@ def r1_invalidate(run, w):
          "removal invalidates every column of the removed rows", ok, fi=br.fi)
 
 
-def _unset_all_columns_loop(fn, flow):
+def _unset_all_columns_loop(fn, flow, depth=1):
   """[(unset node id, rows iterable expr, node id of the rows loop, conditions inside the column
   loop)] for every `<col>.unset(<row>)` whose receiver is the variable of a loop over the values of
   a table's column dict and whose argument is the variable of a loop over some rows."""
@@ -121,15 +122,34 @@ def _unset_all_columns_loop(fn, flow):
     src = flow.loop_source(c.func.value, n.id)
     if src is None:
       continue
-    it = src[0]
+    it = flow.resolve(src[0], src[1])[0]
     if not (isinstance(it, ast.Call) and isinstance(it.func, ast.Attribute) and
             it.func.attr == "values" and
-            fn.type_of(it.func.value) == "dict[column.BaseColumn]"):
+            (fn.type_of(it.func.value) == "dict[column.BaseColumn]" or
+             (fn.type_of(it.func.value) is None and
+              text(it.func.value).endswith(".all_columns")))):
       continue
     a0 = c.args[0] if c.args else c.keywords[0].value
     rows = flow.loop_source(a0, n.id)
     conds = flow.facts_inside(n.id, src[1])
     out.append((n.id, rows[0] if rows else None, rows[1] if rows else None, conds))
+  if depth > 0:
+    # the loop may have been extracted into a helper of the same class taking the rows
+    w = fn.world
+    for (n, c, nm) in fn.calls():
+      h = own_helper(w, fn, c, exclude=set(w.doc_action_names()))
+      if h is None:
+        continue
+      hfn = w.fn_of(h)
+      hflow = Flow(hfn)
+      hps = h.params()[1:]
+      b = args_by_params(c, hps)
+      for (hn, hrows, hrn, hconds) in _unset_all_columns_loop(hfn, hflow, depth - 1):
+        if hrows is None or b is None:
+          continue
+        t = hflow.itext(hrows, hrn, stop=hps)
+        if t in hps and t in b:
+          out.append((n.id, b[t], n.id, hconds))
   return out
 
 
@@ -294,9 +314,9 @@ def _expr_facts(root, target):
     for ch in ast.iter_child_nodes(e):
       if go(ch):
         if isinstance(e, ast.IfExp) and ch is e.body:
-          out.extend(facts(e.test, True))
+          out.extend(nfacts(e.test, True))
         elif isinstance(e, ast.IfExp) and ch is e.orelse:
-          out.extend(facts(e.test, False))
+          out.extend(nfacts(e.test, False))
         return True
     return False
   go(root)
